@@ -11,7 +11,13 @@
 //!     shuts down / drops the broker side of the victim's connection;
 //!   * every task runs on a single-threaded executor with REAL wakers: only woken tasks are
 //!     polled, the seeded `Rng` picks the next one.  A task that is still pending when no task is
-//!     runnable is a hang (lost wake-up or a future nobody will ever complete).
+//!     runnable is a hang (lost wake-up or a future nobody will ever complete).  A task that
+//!     never returns from ONE poll (a loop without a yield inside `Client::run`) is caught by
+//!     the spin guard of the victim's transport (`EPOCH`/`SPIN_LIMIT`) and reported as a hang too.
+//!   * scenario `calldrop` (and `calldrop14` on protocol 1.14): one or two unanswered calls whose
+//!     `PendingReply` futures are dropped at seeded points before / after the stop was requested
+//!     (`drop <label>` in the trace), or awaited; on `lastdrop` the application drops its proxy
+//!     and handle itself and keeps only the reply futures.
 //!
 //! Monitor (the property statement, evaluated on the Rust run alone): no panic; the executor
 //! becomes quiescent with every task finished; `Client::run` returned the expected class; every
@@ -40,6 +46,7 @@ use std::future::Future;
 use std::io::Write;
 use std::pin::Pin;
 use std::rc::Rc;
+use std::sync::atomic::{AtomicU64, Ordering};
 use std::sync::{Arc, Mutex};
 use std::task::{Context, Poll, Wake, Waker};
 use uuid::Uuid;
@@ -47,6 +54,17 @@ use verif_harness::msgfmt::{fmt_msg, Ids};
 use verif_harness::{catch, env_u64, quiet_panics, Rng};
 
 // ------------------------------------------------------------------ executor with real wakers
+/// incremented by the executor before every task poll.  The victim's transport counts how often
+/// it is polled for input within ONE task poll: beyond SPIN_LIMIT the task that owns it
+/// (`Client::run`) loops without ever returning to the executor -- on a single-threaded executor
+/// nothing else can run then, so the wrapper panics with "SPIN: ..." (the case runner turns that
+/// into a `hang:` problem with the case as replay instead of hanging the harness).  A legitimate
+/// poll of `run` calls `receive_poll` once per handled message plus once per select call.
+static EPOCH: AtomicU64 = AtomicU64::new(0);
+const SPIN_LIMIT: u32 = 20_000;
+/// the victim's trace up to the moment the spin guard fired (the panic loses the case state)
+static SPIN_TRACE: Mutex<Vec<String>> = Mutex::new(Vec::new());
+
 type Task = Pin<Box<dyn Future<Output = ()>>>;
 
 struct TaskWaker {
@@ -114,6 +132,7 @@ impl Exec {
             let w = self.wakers[i].clone();
             let mut cx = Context::from_waker(&w);
             self.polls += 1;
+            EPOCH.fetch_add(1, Ordering::Relaxed);
             let done = self.tasks[i].as_mut().unwrap().as_mut().poll(&mut cx).is_ready();
             if done {
                 self.tasks[i] = None;
@@ -160,6 +179,26 @@ impl Future for FlagWait {
             self.0 .0.wakers.borrow_mut().push(cx.waker().clone());
             Poll::Pending
         }
+    }
+}
+
+/// gives the executor one turn: Pending once (the task stays runnable), then Ready
+struct YieldNow(bool);
+impl Future for YieldNow {
+    type Output = ();
+    fn poll(mut self: Pin<&mut Self>, cx: &mut Context) -> Poll<()> {
+        if self.0 {
+            Poll::Ready(())
+        } else {
+            self.0 = true;
+            cx.waker().wake_by_ref();
+            Poll::Pending
+        }
+    }
+}
+async fn yields(n: u64) {
+    for _ in 0..n {
+        YieldNow(false).await;
     }
 }
 
@@ -306,8 +345,28 @@ impl Shared {
 struct Faulty {
     inner: Option<Unbounded>,
     sh: Rc<Shared>,
+    epoch: u64,
+    calls: u32,
 }
 impl Faulty {
+    fn new(inner: Unbounded, sh: Rc<Shared>) -> Self {
+        Faulty { inner: Some(inner), sh, epoch: 0, calls: 0 }
+    }
+    /// see EPOCH
+    fn spin_guard(&mut self) {
+        let e = EPOCH.load(Ordering::Relaxed);
+        if self.epoch == e {
+            self.calls += 1;
+            if self.calls > SPIN_LIMIT {
+                self.calls = 0;
+                *SPIN_TRACE.lock().unwrap() = self.sh.log.borrow().clone();
+                panic!("SPIN: receive_poll called {SPIN_LIMIT} times within a single poll of the task (busy loop that never yields)");
+            }
+        } else {
+            self.epoch = e;
+            self.calls = 0;
+        }
+    }
     fn fail_now(&mut self) -> FErr {
         let e = self.sh.failed.get().unwrap();
         if e == FErr::Closed {
@@ -319,6 +378,7 @@ impl Faulty {
 impl AsyncTransport for Faulty {
     type Error = FErr;
     fn receive_poll(mut self: Pin<&mut Self>, cx: &mut Context) -> Poll<Result<Message, FErr>> {
+        self.spin_guard();
         if let Some(e) = self.sh.failed.get() {
             return Poll::Ready(Err(self.sh.err("recverr", e)));
         }
@@ -396,7 +456,17 @@ impl AsyncTransport for Faulty {
 }
 
 // ------------------------------------------------------------------ the application side
-const SCENARIOS: [&str; 9] = ["objsvc", "call", "listener", "channel", "sync", "mixed", "lifetime", "mixed14", "twotasks"];
+const SCENARIOS: [&str; 11] =
+    ["objsvc", "call", "listener", "channel", "sync", "mixed", "lifetime", "mixed14", "twotasks", "calldrop", "calldrop14"];
+
+/// scenarios run on protocol 1.14 (`connect1`)
+fn is_v14(scenario: usize) -> bool {
+    SCENARIOS[scenario].ends_with("14")
+}
+/// scenarios whose application drops its handles itself on `lastdrop` (it is not dropped as a whole)
+fn is_calldrop(scenario: usize) -> bool {
+    SCENARIOS[scenario].starts_with("calldrop")
+}
 
 #[derive(Clone)]
 struct PeerInfo {
@@ -411,6 +481,9 @@ struct Ctx {
     peer: PeerInfo,
     run_returned: Flag,
     late: Rc<RefCell<Vec<(&'static str, bool)>>>, // (operation, failed with Error::Shutdown)
+    kind: Kind,
+    stopping: Flag, // the controller has applied the clean cause (or `run` has returned)
+    vseed: u64,     // seed of the scenario's own choices (not the schedule's)
 }
 
 fn class<T>(r: &Result<T, Error>) -> &'static str {
@@ -604,6 +677,93 @@ async fn sc_lifetime(cx: Ctx) {
     late_ops(&cx).await;
 }
 
+/// what `calldrop` does with one call the peer never answers
+#[derive(Clone, Copy, PartialEq, Eq)]
+enum Fate {
+    DropBefore(u64), // the PendingReply is dropped after that many executor turns, not waiting for the stop
+    DropAfter(u64),  // ... that many executor turns after the stop was requested
+    Await,           // awaited to the end
+}
+
+/// One or two calls pending at the peer; their `PendingReply` futures are dropped at seeded,
+/// schedule-dependent points before / after the stop was requested, or awaited.  A dropped
+/// reply is what `FunctionCallMap::poll_aborted` reports: `Selected::AbortFunctionCall` in the
+/// main loop of `Client::run` (-> `abort_function_call`, sends `AbortFunctionCall` from 1.16 on)
+/// or in `drain_transport` (-> `FunctionCallMap::abort` only).  On `lastdrop` the application
+/// drops its proxy and handle itself and keeps only the reply futures.
+async fn sc_calldrop(cx: Ctx) {
+    let mut vr = Rng::new(cx.vseed);
+    let p = op!(cx, "CreateProxy", Proxy::new(&cx.h, cx.peer.sid));
+    let p = match p {
+        Ok(p) => p,
+        Err(_) => {
+            late_ops(&cx).await;
+            return;
+        }
+    };
+    let ncalls = 1 + vr.below(2);
+    let mut calls = vec![];
+    for i in 0..ncalls {
+        let fate = match vr.below(6) {
+            0 => Fate::DropBefore(vr.below(6)),
+            1 => Fate::Await,
+            _ => Fate::DropAfter(vr.below(7)),
+        };
+        let l = cx.enq("CallFunction");
+        calls.push((l, Some(p.call(0, i as u8, None)), fate));
+        if vr.below(3) == 0 {
+            yields(vr.below(4)).await;
+        }
+    }
+    let sh = cx.sh.clone();
+    let drop_call = |c: &mut (String, Option<aldrin::low_level::PendingReply>, Fate)| {
+        sh.line(format!("drop {}", c.0));
+        c.1 = None; // the receiver of the reply oneshot is dropped here
+        sh.obs.borrow_mut().push((c.0.clone(), "dropped"));
+    };
+    // drops that do not wait for the stop (main-loop path, unless the stop overtakes them)
+    let mut turn = 0;
+    let mut order: Vec<usize> = (0..calls.len()).collect();
+    order.sort_by_key(|i| match calls[*i].2 {
+        Fate::DropBefore(y) | Fate::DropAfter(y) => y,
+        Fate::Await => 0,
+    });
+    for &i in &order {
+        if let Fate::DropBefore(y) = calls[i].2 {
+            yields(y.saturating_sub(turn)).await;
+            turn = turn.max(y);
+            drop_call(&mut calls[i]);
+        }
+    }
+    cx.stopping.wait().await;
+    // last handle dropped: the application lets go of everything but the reply futures
+    let mut keep = Some((cx.clone(), p));
+    let lastdrop = cx.kind == Kind::LastDrop;
+    drop(cx);
+    if lastdrop {
+        keep = None;
+    }
+    turn = 0;
+    for &i in &order {
+        if let Fate::DropAfter(y) = calls[i].2 {
+            yields(y.saturating_sub(turn)).await;
+            turn = turn.max(y);
+            drop_call(&mut calls[i]);
+        }
+    }
+    for c in calls.iter_mut() {
+        if let Some(pending) = c.1.take() {
+            let r = pending.await;
+            sh.obs.borrow_mut().push((c.0.clone(), class(&r)));
+        }
+    }
+    if let Some((cx, mut p)) = keep {
+        let e = p.next_event().await;
+        cx.obs_int("proxies", 0, if e.is_none() { "shutdown" } else { "value" });
+        late_ops(&cx).await;
+    }
+}
+
 /// second task of `twotasks`: syncs until the client stops
 async fn sc_syncloop(cx: Ctx) {
     for _ in 0..400 {
@@ -657,6 +817,38 @@ struct Outcome {
     conn_class: String,
     op_kinds: [usize; 3],
     labelled: usize,
+    /// where the application's reply drops fell: [main loop, draining and waiting for the peer's
+    /// Shutdown, draining otherwise, after run returned / failed], and AbortFunctionCall messages sent
+    reply_drops: [usize; 5],
+}
+
+/// classify the `drop` lines of a trace by the state of the client as the wire shows it
+fn reply_drops(trace: &[String]) -> [usize; 5] {
+    let (mut sent, mut recvd, mut over) = (false, false, false);
+    let mut n = [0usize; 5];
+    for l in trace {
+        match l.as_str() {
+            "send Shutdown" => sent = true,
+            "recv Shutdown" => recvd = true,
+            "returned" => over = true,
+            _ if l.starts_with("recverr") || l.starts_with("flusherr") => over = true,
+            _ if l.starts_with("send AbortFunctionCall") => n[4] += 1,
+            _ if l.starts_with("drop ") => {
+                let i = if over {
+                    3
+                } else if sent && !recvd {
+                    1
+                } else if sent || recvd {
+                    2
+                } else {
+                    0
+                };
+                n[i] += 1;
+            }
+            _ => {}
+        }
+    }
+    n
 }
 
 fn run_class<E: fmt::Debug>(r: &Result<(), RunError<E>>) -> String {
@@ -700,6 +892,7 @@ fn run_case(c: &Case) -> Outcome {
     let app_abort = Flag::new();
     let conn_abort = Flag::new();
     let napps = if SCENARIOS[c.scenario] == "twotasks" { 2 } else { 1 };
+    let stopping = Flag::new(); // the clean cause has been applied or the victim's run has returned
 
     let broker = Broker::new();
     let bh: BrokerHandle = broker.handle().clone();
@@ -780,11 +973,11 @@ fn run_case(c: &Case) -> Outcome {
     let ctl_handle: Rc<RefCell<Option<Handle>>> = Rc::new(RefCell::new(None));
     {
         let (t1, t2) = channel::unbounded();
-        let ft = Faulty { inner: Some(t1), sh: sh.clone() };
+        let ft = Faulty::new(t1, sh.clone());
         let cslot = Rc::new(RefCell::new(None));
         let bslot = Rc::new(RefCell::new(None));
         let (cf, bf) = (Flag::new(), Flag::new());
-        let v14 = SCENARIOS[c.scenario] == "mixed14";
+        let v14 = is_v14(c.scenario);
         {
             let (cslot, cf) = (cslot.clone(), cf.clone());
             sp.borrow_mut().push(("victim_connect", Box::pin(async move {
@@ -806,6 +999,8 @@ fn run_case(c: &Case) -> Outcome {
         );
         let (scenario, kind) = (c.scenario, c.kind);
         let started2 = started.clone();
+        let stopping2 = stopping.clone();
+        let vseed = c.seed.wrapping_mul(0x2545_F491_4F6C_DD1D) ^ 0xCA11_D809;
         sp.borrow_mut().push(("victim", Box::pin(async move {
             peer_ready.wait().await;
             cf.wait().await;
@@ -838,18 +1033,29 @@ fn run_case(c: &Case) -> Outcome {
             let h = client.handle().clone();
             sh2.logging.set(true);
             {
-                let (b3, rr) = (b2.clone(), run_returned.clone());
+                let (b3, rr, st, sh3) = (b2.clone(), run_returned.clone(), stopping2.clone(), sh2.clone());
                 sp2.borrow_mut().push(("victim_run", Box::pin(async move {
                     let r = client.run().await;
+                    sh3.line("returned".into()); // not an input of the automaton (the driver skips it)
                     b3.borrow_mut().victim_run = Some(run_class(&r));
                     rr.set();
+                    st.set();
                 })));
             }
             if kind == Kind::Shutdown || kind == Kind::None || kind.is_fault() {
                 *ctl_handle.borrow_mut() = Some(h.clone());
             }
             started2.set();
-            let cx = Ctx { h, sh: sh2.clone(), peer: peer_info.borrow().clone().unwrap(), run_returned: run_returned.clone(), late: late2 };
+            let cx = Ctx {
+                h,
+                sh: sh2.clone(),
+                peer: peer_info.borrow().clone().unwrap(),
+                run_returned: run_returned.clone(),
+                late: late2,
+                kind,
+                stopping: stopping2.clone(),
+                vseed,
+            };
             let mut apps: Vec<(&'static str, Task)> = vec![];
             match SCENARIOS[scenario] {
                 "objsvc" => apps.push(("app", Box::pin(sc_objsvc(cx)))),
@@ -863,11 +1069,14 @@ fn run_case(c: &Case) -> Outcome {
                     apps.push(("app", Box::pin(sc_call(cx.clone()))));
                     apps.push(("app2", Box::pin(sc_syncloop(cx))));
                 }
+                "calldrop" | "calldrop14" => apps.push(("app", Box::pin(sc_calldrop(cx)))),
                 _ => unreachable!(),
             }
             let remaining = Rc::new(Cell::new(apps.len()));
             for (name, t) in apps {
-                let (aa, ad, rem, done) = (app_abort.clone(), app_done.clone(), remaining.clone(), app_completed.clone());
+                // `calldrop` is not dropped as a whole: on `lastdrop` it drops its handles itself
+                let aa = if is_calldrop(scenario) { Flag::new() } else { app_abort.clone() };
+                let (ad, rem, done) = (app_done.clone(), remaining.clone(), app_completed.clone());
                 sp2.borrow_mut().push((name, Box::pin(async move {
                     // dropping the application drops every handle, object, proxy, ... it holds
                     if race(t, &aa).await.is_some() {
@@ -887,6 +1096,7 @@ fn run_case(c: &Case) -> Outcome {
         let (sh2, b2, mut bh2, app_abort, conn_abort, conn_handle, ctl_handle, app_done, kind) =
             (sh.clone(), b.clone(), bh.clone(), app_abort.clone(), conn_abort.clone(), conn_handle.clone(), ctl_handle.clone(), app_done.clone(), c.kind);
         let started = started.clone();
+        let stopping = stopping.clone();
         sp.borrow_mut().push(("controller", Box::pin(async move {
             // not before the victim runs (handles and connection handle are in place)
             if race(started.wait(), &app_done).await.is_none() {
@@ -899,6 +1109,7 @@ fn run_case(c: &Case) -> Outcome {
                 return;
             }
             b2.borrow_mut().acted = true;
+            stopping.set();
             match kind {
                 Kind::Shutdown | Kind::None | Kind::Err | Kind::Eof => {
                     if let Some(h) = ctl_handle.borrow_mut().take() {
@@ -998,7 +1209,7 @@ fn run_case(c: &Case) -> Outcome {
         problems.push("wrong-result: connect failed although the client was built".into());
     }
     if !bb.victim_connect_failed {
-        let aborted = app_abort.is_set();
+        let aborted = app_abort.is_set() && !is_calldrop(c.scenario);
         if !aborted && app_completed.get() != napps {
             problems.push(format!("hang: application: {} of {napps} tasks ran to completion (a pending operation never resolved)", app_completed.get()));
         }
@@ -1047,7 +1258,7 @@ fn run_case(c: &Case) -> Outcome {
         }
     };
     let summary = format!("result={result} waiters={}", if waiters.is_empty() { "-".to_string() } else { waiters.join(",") });
-    let mut trace = vec![format!("begin {} {}", c.id().replace(' ', "_"), if SCENARIOS[c.scenario] == "mixed14" { 14 } else { 20 })];
+    let mut trace = vec![format!("begin {} {}", c.id().replace(' ', "_"), if is_v14(c.scenario) { 14 } else { 20 })];
     trace.extend(sh.log.borrow().iter().cloned());
     for (l, cl) in ws.iter() {
         trace.push(format!("obs {l} {cl}"));
@@ -1056,6 +1267,7 @@ fn run_case(c: &Case) -> Outcome {
     trace.push("end".into());
     let opk = *sh.op_kinds.borrow();
     let labelled = ws.len();
+    let reply_drops = reply_drops(&trace);
     Outcome {
         problems,
         trace,
@@ -1067,6 +1279,7 @@ fn run_case(c: &Case) -> Outcome {
         conn_class: bb.victim_conn.clone().unwrap_or_else(|| "none".into()),
         op_kinds: opk,
         labelled,
+        reply_drops,
     }
 }
 
@@ -1074,8 +1287,20 @@ fn run_case_caught(c: &Case) -> Outcome {
     match catch(|| run_case(c)) {
         Ok(o) => o,
         Err(p) => Outcome {
-            problems: vec![format!("panic: {p}")],
-            trace: vec![format!("begin {} 20", c.id().replace(' ', "_")), "result panic".into(), "end".into()],
+            problems: vec![match p.split("SPIN: ").nth(1) {
+                // the spin guard of the victim's transport fired: the task polling it never yielded
+                Some(d) => format!("hang: Client::run() did not return from a single poll (it spins without yielding to the executor): {d}"),
+                None => format!("panic: {p}"),
+            }],
+            trace: {
+                let mut t = vec![format!("begin {} {}", c.id().replace(' ', "_"), if is_v14(c.scenario) { 14 } else { 20 })];
+                if p.contains("SPIN: ") {
+                    t.extend(SPIN_TRACE.lock().unwrap().drain(..));
+                }
+                t.push("result panic".into());
+                t.push("end".into());
+                t
+            },
             summary: "result=panic waiters=-".into(),
             ops: 0,
             polls: 0,
@@ -1084,6 +1309,7 @@ fn run_case_caught(c: &Case) -> Outcome {
             conn_class: "panic".into(),
             op_kinds: [0; 3],
             labelled: 0,
+            reply_drops: [0; 5],
         },
     }
 }
@@ -1142,6 +1368,7 @@ fn main() {
             let mut maxops: BTreeMap<&'static str, usize> = BTreeMap::new();
             let mut opk = [0usize; 3];
             let mut labelled = 0usize;
+            let mut drops = [0usize; 5];
             let mut nontrivial = std::collections::HashSet::new();
             let mut samples = vec![];
             let mut violations = 0usize;
@@ -1156,6 +1383,11 @@ fn main() {
                         violations += 1;
                         writeln!(mon_f, "{}\t{} none 0 {}\t{}", o.problems[0].split(':').next().unwrap_or("problem"), SCENARIOS[scenario], seed0.wrapping_mul(977).wrapping_add(s), o.problems.join(" | ")).unwrap();
                     }
+                }
+                if is_calldrop(scenario) {
+                    // the variant is drawn from the seed; the longest one has two calls aborted in the
+                    // main loop (from 1.16 on: AbortFunctionCall + flush each), which a dry run rarely draws
+                    total += 4;
                 }
                 if shard == 0 {
                     maxops.insert(SCENARIOS[scenario], total);
@@ -1196,6 +1428,9 @@ fn main() {
                                 opk[i] += o.op_kinds[i];
                             }
                             labelled += o.labelled;
+                            for i in 0..5 {
+                                drops[i] += o.reply_drops[i];
+                            }
                             if o.ops >= 4 {
                                 nontrivial.insert((scenario, kind.name(), k, o.summary.clone()));
                             }
@@ -1223,7 +1458,9 @@ fn main() {
             let stats = format!(
                 "{{\"cases\": {n_cases}, \"violations\": {violations}, \"fault_fired\": {fired}, \"polls\": {polls}, \"labelled_waiters\": {labelled}, \
                  \"distinct_nontrivial\": {}, \"result_classes\": {}, \"case_kinds\": {}, \"scenarios\": {}, \"transport_ops_per_scenario\": {}, \
-                 \"ops\": {{\"receive\": {}, \"send_start\": {}, \"flush\": {}}}, \"samples\": [{}]}}",
+                 \"ops\": {{\"receive\": {}, \"send_start\": {}, \"flush\": {}}}, \
+                 \"reply_drops\": {{\"main_loop\": {}, \"draining_awaiting_peer_shutdown\": {}, \"draining_other\": {}, \"after_return\": {}, \
+                 \"abort_function_call_sent\": {}}}, \"samples\": [{}]}}",
                 nontrivial.len(),
                 js(&classes),
                 js2(&by_kind),
@@ -1232,6 +1469,11 @@ fn main() {
                 opk[0],
                 opk[1],
                 opk[2],
+                drops[0],
+                drops[1],
+                drops[2],
+                drops[3],
+                drops[4],
                 samples_js.join(", ")
             );
             std::fs::write(format!("{out}/stats.json"), stats).unwrap();
